@@ -12,15 +12,80 @@ ORACLES = {
 EXTRA = []
 
 
+ATOM_IMPORTS = """From MV Require Import Model.RaceCfg Model.AtomCfg Model.GuardSpec Proofs.AtomSound.
+From MVgen Require Import RaceProg.
+Open Scope N_scope.
+"""
+ATOM_OBLIGATIONS = [
+    # every insertion into a registry that Close walks happens in the critical section that checked `closed`
+    ("C10_gen_register_after_check", "atom_ok (atom_rules_checked field_names atom_rules) rprogram = true", "vm_compute. reflexivity."),
+    # the rule set has not silently shrunk (the core's listener and dialer lists are among the checked registries)
+    ("C10_gen_rules_present",
+     "forallb (fun n => existsb (fun r => String.eqb (nth (N.to_nat (fst r)) field_names \"\"%string) n) (atom_rules_checked field_names atom_rules)) "
+     "[\"internal/core.socket.listeners+insert\"%string; \"internal/core.socket.dialers+insert\"%string] = true", "vm_compute. reflexivity."),
+]
+ATOM_REPORT = ATOM_IMPORTS + """
+Definition bad := Eval vm_compute in
+  map (fun x => (nth (N.to_nat (fst x)) field_names ""%string, snd x)) (atom_bad (atom_rules_checked field_names atom_rules) rprogram).
+Print bad.
+Definition nrules := Eval vm_compute in length (atom_rules_checked field_names atom_rules).
+Print nrules.
+"""
+
+
+def run_static(res):
+    """Close-vs-register atomicity on the lock skeletons regenerated from /repo (translator go2race)."""
+    import os, re
+    from .c11 import gen_raceprog
+    gd, _rp = gen_raceprog("C10")
+    obl = core.check_gen_obligations("C10", gd, ATOM_IMPORTS, ATOM_OBLIGATIONS, timeout=600)
+    failed = [(n, e) for n, ok, e in obl if not ok]
+    res.coverage["discharged"] += len(obl) - len(failed)
+    res.coverage["theorems"] += [n for n, _, _ in obl]
+    res.coverage["generated_obligations"] = {n: ok for n, ok, _ in obl}
+    p = os.path.join(core.WORK, "C10", "atom_report.v")
+    open(p, "w").write(ATOM_REPORT)
+    rc, out, err, dt = core.coqc_file(p, extra=["-Q", gd, "MVgen"])
+    found = 0
+    if rc == 0:
+        txt = re.sub(r"\s+", " ", out)
+        for m in re.finditer(r'\("([^"]+)", "([^"]+)"\)', txt.split("nrules")[0]):
+            fld, fn = m.group(1), m.group(2)
+            found += 1
+            res.violation("static:register:%s:%s" % (fld, fn),
+                          "%s adds an element to %s without having read the object's `closed` flag in the same critical section on every path: "
+                          "Close can run between the check and the registration, and the element is registered into a closed object "
+                          "(nobody will shut it down)" % (fn, fld.replace("+insert", "")),
+                          {"function": fn, "registry": fld, "theorem": "C10_gen_register_after_check (atom_ok ... = true)",
+                           "how": "bin/check C10 regenerates the skeletons with harness/cmd/go2race and re-evaluates Model/AtomCfg.atom_ok; "
+                                  "schedule: the function's caller passes the closed-check, Close runs to completion, the function registers"},
+                          found_input=False)
+        m = re.search(r"nrules = (\d+)", txt)
+        res.coverage["register_after_check_rules"] = int(m.group(1)) if m else None
+    for n, e in failed:
+        if n == "C10_gen_register_after_check" and found:
+            continue
+        res.violation("obligation:" + n, "generated obligation %s no longer checks against the skeletons regenerated from /repo" % n,
+                      {"theorem": n, "coqc": e, "translator": "harness/cmd/go2race"}, found_input=False)
+
+
 def run(res):
-    core.std_proof_coverage(res, "C10")
+    core.std_proof_coverage(res, "C10", extra_obligations=len(ATOM_OBLIGATIONS))
+    run_static(res)
+    cov0 = dict(res.coverage)
     l1.run(res, "C10", "core", "Model.Core Model.CoreOracle", "", "", ORACLES + EXTRA,
            "the socket core behaves differently from the model (Model/Core.v): hook events, protocol notifications, transport closes, dial attempts, "
            "return values, ids in use or pipes listed",
            gocmd="l2core", prelude="Definition step_rec := kstep_rec.\n",
            check_fn="(fun h => kcheck_from %s %s kinit 0 h)" % (IDFIX, DIALFIX),
            ambig_fn="(fun h => kambiguous_from %s %s kinit 0 h)" % (IDFIX, DIALFIX))
+    for k in ("discharged", "theorems", "generated_obligations", "register_after_check_rules"):
+        if k in cov0:
+            res.coverage[k] = cov0[k]
     res.coverage["trusted_base"] = core.COQ_TRUSTED + [
+        "translator harness/cmd/go2race for the check-then-register rules: insertions are `x.f[k] = v` and `x.f = append(x.f, ...)`; calls through interfaces and "
+        "function values are assumed not to release the caller's mutex; rules are proposed for the map/slice fields that the struct's own Close method touches "
+        "(exemptions reviewed in Model/GuardSpec.v atom_exempt)",
         "hand-written model Model/Core.v tied by correspondence at quiescence granularity against the real core.socket/dialer/listener/pipe over a virtual transport "
         "(harness/vt, registered through the public transport.RegisterTransport) and a recording mock protocol (harness/mproto)",
         "verif hooks internal/core/verif_hooks.go + protocol/verif_hooks.go (read-only: pipe ids in use, pipes listed)",
